@@ -128,7 +128,7 @@ class FeedbackParallelStep(ParallelStep):
                         evaluator,
                         representation,
                         random,
-                        population,
+                        npopulation,
                         end - start,
                         generation,
                     ),
